@@ -67,7 +67,7 @@ class C08(object):
     assumptions = ['country order and Region default-currency inheritance are documented order dependence and fixed',
                    'wiring calls (AddSupplier, SetExogenous, RegisterCashFlow, portfolio rules) follow the declarations']
     required_counters = ('builds.compared', 'builds.compared_exactly', 'orders.distinct',
-                         'zone_queried_during_construction.cases')
+                         'zone_queried_during_construction.cases', 'parameter_chain_across_sectors.cases')
 
     def n_cases(self, tier):
         return 12 if tier == 'quick' else 30 + 270
@@ -85,6 +85,10 @@ class C08(object):
         nz = rng.choice([1, 1, 2])
         spec = M.gen_spec(rng, n_zones=nz, maxtime=rng.randint(3, 5))
         n = 6 if tier == 'quick' else 12
+        if idx % 3 != 2:
+            # scalar parameters chained through several sectors (their time-zero values must not depend on the order)
+            import random as _r
+            M.add_param_chain(_r.Random('pchain:%d:%d' % (idx, rng.getrandbits(20))), spec)
         return {'kind': 'orders', 'spec': spec, 'order_seeds': [rng.getrandbits(30) for _ in range(n)],
                 'ext_first': [rng.random() < 0.5 for _ in range(n)],
                 # the public zone API (GetSectors / LookupSector) is used while the sectors are being declared
@@ -97,6 +101,8 @@ class C08(object):
         qz = bool(case.get('query_zone'))
         if qz:
             rec.count('zone_queried_during_construction.cases')
+        if spec.get('param_chain'):
+            rec.count('parameter_chain_across_sectors.cases')
         base = M.build(spec, query_zone=qz)
         if base.error is not None:
             return {'verdict': 'notjudged', 'shape': shape + '|base:' + type(base.error).__name__}
